@@ -172,7 +172,7 @@ Section HamModel.
       (if (start_t <=? t)%Z then [(KG b, v)] else []) ++
       (if (start_t =? 0)%Z then []
        else match emu_slots n c with
-            | [] => []      (* the implementation raises IndexError here *)
+            | [] => []      (* [if start_t == 0 or not cs.slots: continue] *)
             | s0 :: _ =>
                 if (t <? start_t)%Z
                 then map (fun q => (KL b q, v))
@@ -348,10 +348,11 @@ Section HamModel.
 End HamModel.
 
 (** * The SLM-mask coefficient of the XY interaction (integers)
-    [coeff = ones(D-1); coeff[0:end] = 0] read through
+    [coeff = ones(D); coeff[0:end] = 0] read through
     [_adapt_to_sampling_rate] at full sampling rate:
-    index_k = int(k * (D-2) / (D-1)), D = samples duration = total + 1. *)
+    index_k = int(k * (len-1) / (D-1)) with len = D = samples duration =
+    total + 1, the same indices as the sampling times. *)
 Definition adapt_index_full (len D k : Z) : Z :=
   if (k =? D - 1)%Z then (len - 1)%Z else (k * (len - 1) / (D - 1))%Z.
 Definition unmasked_on_full (D mask_end k : Z) : bool :=
-  negb (adapt_index_full (D - 1) D k <? mask_end)%Z.
+  negb (adapt_index_full D D k <? mask_end)%Z.
